@@ -317,6 +317,106 @@ class CallGraph(object):
         self.last_parent = parent
         return seen
 
+    # ------------------------------------------------------------------ constant-sensitive reachability
+    @staticmethod
+    def _const(node):
+        if isinstance(node, ast.Constant) and (isinstance(node.value, (str, bool)) or node.value is None):
+            return (node.value,)
+        return None
+
+    def site_feasible(self, site, consts):
+        """False when an enclosing `if P == 'c'` / `if P` / `if not P` test contradicts the known constant
+        value of parameter P for this activation"""
+        if not consts:
+            return True
+        child = site.node
+        p = getattr(child, '_parent', None)
+        while p is not None and not isinstance(p, (ast.FunctionDef, ast.AsyncFunctionDef)):
+            if isinstance(p, ast.If) and (any(child is b for b in p.body) or any(child is b for b in p.orelse)):
+                in_body = any(child is b for b in p.body)
+                verdict = self._eval_test(p.test, consts)
+                if verdict is not None and verdict != in_body:
+                    return False
+            child = p
+            p = getattr(p, '_parent', None)
+        return True
+
+    def _eval_test(self, t, consts):
+        if isinstance(t, ast.Compare) and len(t.ops) == 1 and isinstance(t.left, ast.Name) and t.left.id in consts:
+            c = self._const(t.comparators[0])
+            if c is not None:
+                v = consts[t.left.id]
+                if isinstance(t.ops[0], ast.Eq):
+                    return v == c[0]
+                if isinstance(t.ops[0], ast.NotEq):
+                    return v != c[0]
+                if isinstance(t.ops[0], ast.Is):
+                    return v is c[0]
+                if isinstance(t.ops[0], ast.IsNot):
+                    return v is not c[0]
+        if isinstance(t, ast.Name) and t.id in consts:
+            return bool(consts[t.id])
+        if isinstance(t, ast.UnaryOp) and isinstance(t.op, ast.Not):
+            r = self._eval_test(t.operand, consts)
+            return None if r is None else not r
+        if isinstance(t, ast.BoolOp) and isinstance(t.op, ast.And):
+            rs = [self._eval_test(v, consts) for v in t.values]
+            if any(r is False for r in rs):
+                return False
+            if all(r is True for r in rs):
+                return True
+        return None
+
+    def reachable_cs(self, roots, pred=None, stop=None, root_consts=None):
+        """like reachable(), but each function activation carries the constant str/bool/None arguments it was
+        called with, and call sites in branches contradicted by those constants are skipped"""
+        seen = set()
+        fqs = set()
+        work = [(r, frozenset((root_consts or {}).get(r, {}).items())) for r in roots]
+        parent = {}
+        while work:
+            fq, ck = work.pop()
+            if (fq, ck) in seen:
+                continue
+            seen.add((fq, ck))
+            fqs.add(fq)
+            if stop is not None and stop(fq):
+                continue
+            consts = dict(ck)
+            fi = self.index.functions.get(fq)
+            # parameters reassigned in the body are not constant
+            if fi is not None and consts:
+                for n in own_nodes(fi.node):
+                    if isinstance(n, ast.Name) and isinstance(n.ctx, ast.Store) and n.id in consts:
+                        consts.pop(n.id, None)
+            for s in self.sites.get(fq, ()):
+                if not self.site_feasible(s, consts):
+                    continue
+                for t in s.targets:
+                    if t.kind != 'func' or (pred is not None and not pred(s, t)):
+                        continue
+                    nc = {}
+                    if s.kind == 'call':
+                        b, _, _, _ = self.te.bind(s.node, t)
+                        for pn, a in b.items():
+                            c = self._const(a)
+                            if c is not None:
+                                nc[pn] = c[0]
+                            elif isinstance(a, ast.Name) and a.id in consts:
+                                nc[pn] = consts[a.id]
+                    elif s.kind in ('setprop', 'getprop', 'delattr') and s.args.get('name') is not None and \
+                            t.func.name in ('__setattr__', '__getattr__', '__delattr__'):
+                        ps = t.func.call_params()
+                        if ps:
+                            nc[ps[0]] = s.args['name']
+                    q = t.func.qualname
+                    key = (q, frozenset(nc.items()))
+                    if key not in seen:
+                        parent.setdefault(q, (fq, s))
+                        work.append(key)
+        self.last_parent = parent
+        return fqs
+
     def path_to(self, target_fq):
         """call chain (list of 'caller:line -> callee') to target using the parents of the last reachable()"""
         chain = []
